@@ -27,6 +27,13 @@ Iteration file: every sequence of 2 (thorough: also 3) estimations {estimate, qu
 directory with save_iterations=True, the models ranging over the template and every change of status of one parameter
 (free -> fixed, fixed -> free); the file left by the earlier estimations is the environment of the next one; every
 estimation judged by all per-run clauses against the reference of its own model.
+Table edited under a live model: tables of a sub-family, cross-sectional and panel (individuals of 1-3 rows; logit and normal
+regression as log(PanelLikelihoodTrajectory(.))) x EVERY history (operations before: none / estimate / quick_estimate /
+evaluation) + (edit sequence through the Database interface: remove() of EVERY subset of the rows, scale_column of every
+model column by every scale, two edits in both orders) + (operations after: estimate / quick_estimate, directly or after an
+evaluation) on ONE BIOGEME object and its database; the stated likelihood of an estimation is the formula applied to the
+table as it is when the estimation is launched (the reference applies the same edits to its plain-Python table; panel BHHH =
+sum over the individuals); all per-run clauses, and the results obtained before the edit keep reporting their own table.
 """
 from __future__ import annotations
 
@@ -45,11 +52,15 @@ TECHNIQUE = ('bounded exhaustive enumeration of (concave model template x every 
              '(estimations, evaluations, option setters) of bounded depth on one object, each estimation judged with the '
              'options in force, every earlier results object re-read after every operation; dictionaries of formulas over '
              'every keyword / order / weight-vector combination against the weighted reference; every short sequence of '
-             'estimations of same-named models (one parameter changing status) sharing the iteration file of a directory')
+             'estimations of same-named models (one parameter changing status) sharing the iteration file of a directory; '
+             'every history (uses before) + (Database.remove of every subset of the rows / scale_column of every model column, '
+             'up to two edits) + (uses after) on one live object, cross-sectional and panel data, against the reference of the '
+             'table as it is when each estimation is launched')
 RULE = ('one case per real estimation run (model, table, bound configuration, start, algorithm variant, entry point) '
         'and one per (table, resample vector) bootstrap history and one per (table, bounds, construction options, '
         'operation sequence) object history and one per (table, weight vector, dictionary form) estimation and one per '
-        '(table, bounds, algorithm, sequence of (model variant, entry point)) iteration-file history; a case is non-trivial when the table was accepted '
+        '(table, bounds, algorithm, sequence of (model variant, entry point)) iteration-file history and one per (table, '
+        'individuals, bounds, algorithm, start, operation sequence with table edits) live-model edit history; a case is non-trivial when the table was accepted '
         'by the reference (finite, well conditioned interior maximum) and the run returned results; '
         'distinct = distinct (model, table, bounds, start, algorithm variant, entry point[, resample]) keys. '
         'Rejected tables (separation / ill conditioning) are counted, never sent to the library.')
@@ -75,6 +86,12 @@ ASSUMPTIONS = [
     'history (initLogLike must be the likelihood at one of them; the loosest of them scales the gradient tolerance); '
     'max_iterations is not forwarded to scipy (counted, not demanded); steptol and the other trust-region options are not '
     'changed inside histories',
+    'table edits: only Database.remove and Database.scale_column (the two editing methods of the Database interface that keep '
+    'the columns), at most two edits per history, tables of 4-6 rows, individuals of 1-3 rows; a history that launches an '
+    'estimation on a table without reference optimum is outside the domain (counted); the bounds are those declared at '
+    'construction (derived from the reference optimum of the last table of the history); a direct assignment to '
+    'database.data is not an edit through the interface and is not explored; the bootstrap results an earlier '
+    'estimate(run_bootstrap=True) leaves in the results of a later quick_estimate() are not part of the statement',
 ]
 ANCHOR_FILES = ['src/biogeme/biogeme.py', 'src/biogeme/optimization.py', 'src/biogeme/negative_likelihood.py',
                 'src/biogeme/results.py']
@@ -1471,31 +1488,27 @@ def removal_expression(op, nrows):
     return e
 
 
-EDIT_PRE = {'quick': [[], ['E'], ['Q']], 'thorough': [[], ['E'], ['Q'], ['D0'], ['L1'], ['E', 'Q']]}
-EDIT_POST = {'quick': [['E'], ['Q'], ['D0', 'E']], 'thorough': [['E'], ['Q'], ['D0', 'E'], ['L1', 'Q'], ['E', 'E'], ['Q', 'E']]}
+EDIT_PRE = {'quick': [[], ['E']], 'thorough': [[], ['E'], ['Q'], ['D0']]}
+EDIT_POST = {'quick': [['E'], ['Q']], 'thorough': [['E'], ['Q'], ['D0', 'E'], ['L1', 'Q']]}
 
 
 def edit_sequences(tpl, nrows, tier):
     """Every sequence of edits of the bound: ONE removal of EVERY subset of the rows but the whole table (the empty subset
     included: an expression that is zero everywhere), ONE scaling of every model column by every scale; two edits:
-    (removal of a subset, scaling) in both orders (quick: subsets of one row, first column, one scale each; thorough:
-    every subset of at most 2 rows, every column, both scales) and (thorough) two removals of one row each."""
+    (removal of one row, scaling) in both orders (quick: one column and scale per order; thorough: every column and
+    scale) and (thorough) two removals of one row each."""
     subsets = [S for r in range(0, nrows) for S in itertools.combinations(range(nrows), r)]
     R = lambda S: 'R:' + ','.join(map(str, S))
     cols = model_columns(tpl)
     scalings = [f'C:{c}:{j}' for c in cols for j in range(len(EDIT_SCALES))]
     out = [[R(S)] for S in subsets] + [[c] for c in scalings]
-    if tier == 'quick':
-        for S in subsets:
-            if len(S) == 1:
-                out.append([R(S), scalings[0]])
-                out.append([scalings[-1], R(S)])
-    else:
-        for S in subsets:
-            if 1 <= len(S) <= 2:
-                for c in scalings:
-                    out.append([R(S), c])
-                    out.append([c, R(S)])
+    for S in subsets:
+        if len(S) == 1:
+            for c in (scalings if tier == 'thorough' else scalings[:1]):
+                out.append([R(S), c])
+            for c in (scalings if tier == 'thorough' else scalings[-1:]):
+                out.append([c, R(S)])
+    if tier == 'thorough':
         for i in range(nrows):
             for j in range(nrows):
                 if i != j:
@@ -1676,10 +1689,10 @@ def check_edit_history(rec, tpl, rows, panel, bname, lb, ub, bkind, algo, sidx, 
 def edit_plan(tier):
     """(model, rows, identifiers of the individuals or None, step through the table family, parts)."""
     if tier == 'quick':
-        return [('L2', 6, 'pairs', 40, 8), ('N2', 5, 'uneven', 150, 6), ('N2', 5, None, 170, 6), ('L1', 6, None, 50, 8)]
-    return [('L2', 6, 'pairs', 12, 24), ('L2', 6, 'uneven', 14, 24), ('L1', 6, 'triples', 20, 24), ('N2', 5, 'uneven', 50, 16),
-            ('N2', 5, 'pairs', 60, 16), ('N2', 5, None, 70, 16), ('L1', 6, None, 20, 24), ('L3G', 6, 'pairs', 250, 24),
-            ('L2F', 6, None, 30, 24), ('N3', 5, None, 100, 16)]
+        return [('L2', 6, 'pairs', 48, 6), ('N2', 4, 'uneven', 60, 3), ('N2', 5, None, 180, 3), ('L1', 5, None, 24, 3)]
+    return [('L2', 6, 'pairs', 48, 60), ('L2', 6, 'uneven', 48, 60), ('L1', 6, 'triples', 48, 60), ('N2', 5, 'uneven', 200, 60),
+            ('N2', 5, 'pairs', 170, 60), ('N2', 5, None, 180, 24), ('L1', 6, None, 48, 24), ('L2F', 6, None, 48, 24),
+            ('N3', 5, None, 200, 24), ('L3G', 6, None, 700, 48)]
 
 
 def _edit_table(rec, task, tpl, base):
